@@ -364,7 +364,10 @@ class Engine(ExprMixin, CallMixin, StmtMixin):
             name = loc if isinstance(loc, str) else ".".join(loc)
             if not isinstance(loc, str):
                 # a mutable field of a class: one array (object -> component) per component
-                self.oblige(o.st, kind, f"unchanged({name})", z3.And(*[a == b for a, b in zip(v1.t, v0.t)]), fn)
+                # semantic equality per object (for an Optional field the payload of a None is irrelevant)
+                ox = z3.Const(fresh_name("fo"), Ref(loc[0]).z)
+                g_ = eq_vals(Val(v1.sort, tuple(z3.Select(a, ox) for a in v1.t)), Val(v0.sort, tuple(z3.Select(a, ox) for a in v0.t)))
+                self.oblige(o.st, kind, f"unchanged({name})", z3.ForAll([ox], g_), fn)
                 continue
             self.oblige(o.st, kind, f"unchanged({name})", self.equal(v1, v0, fn) if not isinstance(v0.sort, (SetSort, DictSort)) else eq_vals(v1, v0), fn)
 
